@@ -294,13 +294,40 @@ pub async fn run_reader(mut r: UtpStreamReadHalf, mut ops: tokio::sync::mpsc::Un
             continue;
         }
         buf.resize((bsz as usize).max(1), 0);
+        // a quarter of the buffer sizes: the application fills one buffer over several calls (as read_exact, io::copy or
+        // a BufReader do): the ReadBuf it passes already holds `filled` bytes, new bytes must be appended behind them
+        let accumulate = bsz % 4 == 3;
+        let mut filled = 0usize;
         while left > 0 {
             let want = (left.min(buf.len() as u64)) as usize;
+            if filled >= want { filled = 0; }
             let ts = now_us(t0);
             let rr = tokio::select! { biased;
                 _ = abort.notified() => { dropped = true; break 'outer; }
                 _ = async { match give_up { Some(d) => tokio::time::sleep_until(d).await, None => std::future::pending().await } } => { continue 'outer; }
-                x = r.read(&mut buf[..want]) => x };
+                x = async {
+                    if !accumulate { return r.read(&mut buf[..want]).await; }
+                    let before = filled;
+                    let after = std::future::poll_fn(|cx| {
+                        let mut rb = tokio::io::ReadBuf::new(&mut buf[..want]);
+                        rb.set_filled(before);
+                        match tokio::io::AsyncRead::poll_read(std::pin::Pin::new(&mut r), cx, &mut rb) {
+                            std::task::Poll::Ready(Ok(())) => std::task::Poll::Ready(Ok(rb.filled().len())),
+                            std::task::Poll::Ready(Err(e)) => std::task::Poll::Ready(Err(e)),
+                            std::task::Poll::Pending => std::task::Poll::Pending,
+                        }
+                    }).await?;
+                    if after < before {
+                        // the fill mark moved backwards: bytes the application had already been given are gone
+                        return Err(std::io::Error::other(format!("HARNESS-OBSERVED: poll_read moved the fill mark of the caller's ReadBuf back from {before} to {after}")));
+                    }
+                    // hand the new bytes to the common path below (they sit behind the old ones)
+                    let k = after - before;
+                    buf.copy_within(before..after, 0);
+                    // keep the chunk position so that the next call again passes a partly filled buffer
+                    filled = if after < want { after } else { 0 };
+                    Ok(k)
+                } => x };
             match rr {
                 Ok(0) => {
                     log.lock().eof = true;
